@@ -77,6 +77,9 @@ struct Params {
     leave_after: Option<usize>,
     remove: Option<(usize, usize)>, // (arm, after this many polls)
     feeder_delay: u64,
+    /// a coroutine poller is cancelled: (aimed at the moment it leaves the scope and the drop
+    /// drains, controller yield points before the cancel)
+    owner_cancel: Option<(bool, u32)>,
 }
 
 fn gen(seed: u64) -> Params {
@@ -98,7 +101,7 @@ fn gen(seed: u64) -> Params {
             Arm { events, panic_at }
         })
         .collect();
-    Params {
+    let mut p = Params {
         rt,
         poller: Ctx::gen(&mut r),
         // short timeouts make the poller loop: it is then often inside poll() at the very moment a
@@ -108,7 +111,38 @@ fn gen(seed: u64) -> Params {
         remove: if r.chance(1, 5) { Some((r.below(n as u64) as usize, r.below(3) as usize)) } else { None },
         feeder_delay: *r.pick(&[0u64, 300_000, 1_000_000]),
         arms,
+        owner_cancel: None,
+    };
+    // drawn last: everything above is the same as before this field existed
+    if p.poller == Ctx::Co && r.chance(1, 3) {
+        p.owner_cancel = Some((r.chance(1, 2), r.below(60) as u32));
     }
+    p
+}
+
+static OWNER_STARTED: std::sync::atomic::AtomicBool = std::sync::atomic::AtomicBool::new(false);
+static OWNER_LEAVING: std::sync::atomic::AtomicBool = std::sync::atomic::AtomicBool::new(false);
+
+fn is_cancel_payload(e: &(dyn std::any::Any + Send)) -> bool {
+    matches!(e.downcast_ref::<generator::Error>(), Some(generator::Error::Cancel))
+}
+
+/// a thread that cancels the owner of a cqueue / select! some yield points after a flag is up
+fn spawn_owner_canceller(owner: &Actor, aimed: bool, at: u32) -> Actor {
+    let co = owner.co.as_ref().expect("coroutine owner").coroutine().clone();
+    let done = owner.done.clone();
+    rt::spawn_actor(Ctx::Thread, "ctl", move || {
+        // both flags are raised at the latest when the owner is through (it may leave by a panic)
+        let flag = if aimed { &OWNER_LEAVING } else { &OWNER_STARTED };
+        rt::wait_flag(flag, usize::MAX);
+        if done.load(Ordering::Relaxed) {
+            return;
+        }
+        for _ in 0..at {
+            engine::yield_point();
+        }
+        unsafe { co.cancel() };
+    })
 }
 
 pub fn run_cqueue(seed: u64, mut ov: impl FnMut(&mut engine::Cfg)) -> ! {
@@ -139,6 +173,7 @@ pub fn run_cqueue(seed: u64, mut ov: impl FnMut(&mut engine::Cfg)) -> ! {
     let poller_fn = move || {
         let r = std::panic::catch_unwind(std::panic::AssertUnwindSafe(|| {
             let o = OPS.begin("poller inside cqueue::scope".to_string());
+            rt::set_flag(&OWNER_STARTED);
             cqueue::scope(|cq| {
                 let mut selectors = Vec::new();
                 for (i, arm) in arms2.iter().cloned().enumerate() {
@@ -249,6 +284,7 @@ pub fn run_cqueue(seed: u64, mut ov: impl FnMut(&mut engine::Cfg)) -> ! {
                         }
                     }
                 }
+                rt::set_flag(&OWNER_LEAVING);
             });
             o.done();
             // the scope is left: no select coroutine may be executing any more
@@ -257,6 +293,8 @@ pub fn run_cqueue(seed: u64, mut ov: impl FnMut(&mut engine::Cfg)) -> ! {
                 violation(&format!("cqueue::scope returned while {} select coroutines are still executing", running));
             }
         }));
+        rt::set_flag(&OWNER_STARTED);
+        rt::set_flag(&OWNER_LEAVING);
         let res = match r {
             Ok(()) => Ok(()),
             Err(e) => {
@@ -266,6 +304,7 @@ pub fn run_cqueue(seed: u64, mut ov: impl FnMut(&mut engine::Cfg)) -> ! {
                 }
                 match e.downcast_ref::<Scripted>() {
                     Some(s) => Err(format!("scripted {}", s.0)),
+                    None if is_cancel_payload(&*e) => Err("cancel".to_string()),
                     None => Err(crate::panic_msg(&e)),
                 }
             }
@@ -273,6 +312,7 @@ pub fn run_cqueue(seed: u64, mut ov: impl FnMut(&mut engine::Cfg)) -> ! {
         *oc.lock().unwrap() = Some(res);
     };
     let mut actors: Vec<Actor> = vec![rt::spawn_actor(p.poller, "poller", poller_fn)];
+    let ctl = p.owner_cancel.map(|(aimed, at)| spawn_owner_canceller(&actors[0], aimed, at));
     {
         // the feeder gives every Recv top its value
         let delay = p.feeder_delay;
@@ -295,7 +335,10 @@ pub fn run_cqueue(seed: u64, mut ov: impl FnMut(&mut engine::Cfg)) -> ! {
     let deadline = engine::now() + 200_000_000;
     engine::set_vt_limit(deadline + 1_000_000);
     rt::await_actors(&actors[..1], deadline);
-    rt::expect_end(&mut actors[0], false);
+    rt::expect_end(&mut actors[0], p.owner_cancel.is_some());
+    if let Some(c) = ctl.as_ref() {
+        rt::await_actors(std::slice::from_ref(c), deadline);
+    }
     let out = outcome.lock().unwrap().clone();
     match out {
         Some(Ok(())) => {
@@ -303,6 +346,9 @@ pub fn run_cqueue(seed: u64, mut ov: impl FnMut(&mut engine::Cfg)) -> ! {
                 violation("a select coroutine panicked but cqueue::scope ended normally: the panic was swallowed");
             }
         }
+        // the cancelled owner left the scope by its cancel (checked above: only after every
+        // select coroutine had ended)
+        Some(Err(m)) if m == "cancel" && p.owner_cancel.is_some() => {}
         Some(Err(m)) => {
             if !(any_panic && m.starts_with("scripted")) {
                 violation(&format!("the poller ended with an unexpected panic: {}", m));
@@ -337,6 +383,7 @@ struct ParamsSel {
     owner: Ctx,
     tops: Vec<Top>,
     panic_arm: Option<usize>,
+    owner_cancel: Option<u32>,
 }
 
 fn gen_sel(seed: u64) -> ParamsSel {
@@ -351,7 +398,12 @@ fn gen_sel(seed: u64) -> ParamsSel {
             _ => Top::Nothing,
         })
         .collect();
-    ParamsSel { rt, owner: Ctx::gen(&mut r), tops, panic_arm: if r.chance(1, 8) { Some(r.below(n as u64) as usize) } else { None } }
+    let mut p = ParamsSel { rt, owner: Ctx::gen(&mut r), tops, panic_arm: if r.chance(1, 8) { Some(r.below(n as u64) as usize) } else { None }, owner_cancel: None };
+    // drawn last: everything above is the same as before this field existed
+    if p.owner == Ctx::Co && r.chance(1, 3) {
+        p.owner_cancel = Some(r.below(80) as u32);
+    }
+    p
 }
 
 fn sel_top(i: usize, t: &Top, panic_arm: Option<usize>) -> ArmGuard {
@@ -396,6 +448,7 @@ pub fn run_select(seed: u64, mut ov: impl FnMut(&mut engine::Cfg)) -> ! {
         let t = |i: usize| tops.get(i).unwrap_or(&none);
         let r = std::panic::catch_unwind(std::panic::AssertUnwindSafe(|| {
             let o = OPS.begin("owner inside select!".to_string());
+            rt::set_flag(&OWNER_STARTED);
             let token = match n {
                 2 => may::select!(
                     _g = sel_top(0, t(0), pa) => sel_bottom(0),
@@ -420,6 +473,8 @@ pub fn run_select(seed: u64, mut ov: impl FnMut(&mut engine::Cfg)) -> ! {
         if running != 0 {
             violation(&format!("select! returned (or unwound) while {} of its arms are still executing", running));
         }
+        rt::set_flag(&OWNER_STARTED);
+        rt::set_flag(&OWNER_LEAVING);
         let res = match r {
             Ok(token) => {
                 if token >= n {
@@ -437,19 +492,25 @@ pub fn run_select(seed: u64, mut ov: impl FnMut(&mut engine::Cfg)) -> ! {
             }
             Err(e) => match e.downcast_ref::<Scripted>() {
                 Some(s) => Err(format!("scripted {}", s.0)),
+                None if is_cancel_payload(&*e) => Err("cancel".to_string()),
                 None => Err(crate::panic_msg(&e)),
             },
         };
         *oc.lock().unwrap() = Some(res);
     };
     let mut actors: Vec<Actor> = vec![rt::spawn_actor(p.owner, "owner", owner_fn)];
+    if let Some(at) = p.owner_cancel {
+        let c = spawn_owner_canceller(&actors[0], false, at);
+        actors.push(c);
+    }
     let deadline = engine::now() + 100_000_000;
     engine::set_vt_limit(deadline + 1_000_000);
     rt::await_actors(&actors, deadline);
-    rt::expect_end(&mut actors[0], false);
+    rt::expect_end(&mut actors[0], p.owner_cancel.is_some());
     let out = outcome.lock().unwrap().clone();
     match out {
         Some(Ok(_)) => {}
+        Some(Err(m)) if m == "cancel" && p.owner_cancel.is_some() => {}
         Some(Err(m)) => {
             let ok = p.panic_arm.map(|a| m == format!("scripted {}", a)).unwrap_or(false);
             if !ok {
